@@ -14,13 +14,25 @@ package hmtx
 //@ spec minRSB(info *Info, k int) int = ite(k <= 0, 0, ite(isz(info, k-1), minRSB(info, k-1), ite(!anyInk(info, k-1) || rsb(info, k-1) < minRSB(info, k-1), rsb(info, k-1), minRSB(info, k-1))))
 //@ spec maxExt(info *Info, k int) int = ite(k <= 0, 0, ite(isz(info, k-1), maxExt(info, k-1), ite(!anyInk(info, k-1) || info.GlyphExtents[k-1].URx > maxExt(info, k-1), info.GlyphExtents[k-1].URx, maxExt(info, k-1))))
 
+//@ spec u16(x int) int = ite(x < 0, x + 65536, x)
+// hhea bytes: version 1.0, ascent/descent/lineGap at 4/6/8, advanceWidthMax
+// at 10, minRightSideBearing at 14, xMaxExtent at 16, caretOffset at 22,
+// reserved and metricDataFormat (24..33) zero.
+//@ pred hh(d []byte, info *Info) = len(d) == 36 && be32(d, 0) == 65536 && be16(d, 4) == u16(info.Ascent) && be16(d, 6) == u16(info.Descent) && be16(d, 8) == u16(info.LineGap) && be16(d, 22) == u16(info.CaretOffset) && be16(d, 24) == 0 && be16(d, 26) == 0 && be16(d, 28) == 0 && be16(d, 30) == 0 && be16(d, 32) == 0 && (info.Widths != nil ==> be16(d, 10) == u16(maxW(info, len(info.Widths)))) && (info.GlyphExtents != nil && info.Widths != nil ==> be16(d, 14) == u16(minRSB(info, len(info.GlyphExtents)))) && (info.GlyphExtents != nil ==> be16(d, 16) == u16(maxExt(info, len(info.GlyphExtents))))
 //@ assume func fromAngle(caretAngle float64) (rise int16, run int16)
 //@   modifies nothing
 
 //@ func (info *Info) Encode() (hheaData []byte, hmtxData []byte)   props: C12 C01 C16
 //@   requires info != nil && len(info.Widths) <= 65535 && (info.LSB != nil ==> info.GlyphExtents == nil || len(info.GlyphExtents) == len(info.LSB))
 //@   may_panic
-//@   ensures len(hheaData) == 36
+//@   ensures hh(hheaData, info)
+//@   let nlong = be16(hheaData, 34); n = len(info.Widths)
+//@   ensures info.Widths != nil && info.LSB != nil ==> (n >= 1 ==> hmtxData != nil) && nlong <= n && (n >= 1 ==> nlong >= 1) && len(hmtxData) == 4*nlong + 2*(n - nlong)
+//@   ensures info.Widths != nil && info.LSB != nil ==> forall k int :: 0 <= k && k < nlong ==> be16(hmtxData, 4*k) == u16(info.Widths[k]) && be16(hmtxData, 4*k + 2) == u16(info.LSB[k])
+//@   ensures info.Widths != nil && info.LSB != nil ==> forall k int :: nlong <= k && k < n ==> be16(hmtxData, 4*nlong + 2*(k - nlong)) == u16(info.LSB[k]) && info.Widths[k] == info.Widths[nlong-1]
+//@   return_assert info.Widths != nil && lsbs != nil ==> be16(hheaData, 34) == numLong
+//@   return_assert info.Widths != nil && lsbs != nil ==> forall k int :: 0 <= k && k < numLong ==> be16(hmtxData, 4*k) == u16(info.Widths[k]) && be16(hmtxData, 4*k + 2) == u16(lsbs[k])
+//@   return_assert info.Widths != nil && lsbs != nil ==> forall k int :: numLong <= k && k < numGlyphs ==> be16(hmtxData, 4*numLong + 2*(k - numLong)) == u16(lsbs[k])
 //@   return_assert info.Widths != nil && lsbs != nil ==> (numGlyphs >= 1 ==> 1 <= numLong) && 0 <= numLong && numLong <= numGlyphs && len(hmtxData) == 4*numLong + 2*(numGlyphs - numLong)
 //@   return_assert info.Widths != nil && lsbs != nil ==> forall k int :: numLong <= k && k < numGlyphs ==> info.Widths[k] == info.Widths[numLong-1]
 //@   return_assert info.Widths != nil && lsbs != nil && numLong > 1 ==> info.Widths[numLong-1] != info.Widths[numLong-2]
@@ -54,6 +66,10 @@ package hmtx
 //@   loop 6
 //@     invariant 0 <= i && i <= numGlyphs && (numGlyphs >= 1 ==> 1 <= numLong) && 0 <= numLong && numLong <= numGlyphs && numGlyphs == len(info.Widths) && len(lsbs) == numGlyphs && hhea != nil && fresh(hhea) && buf != nil && fresh(buf)
 //@     invariant blen(buf) == 4*min(i, numLong) + 2*max(i - numLong, 0) && len(hheaData) == 36
+//@     invariant forall k int :: 0 <= k && k < i && k < numLong ==> bdata(buf)[4*k]*256 + bdata(buf)[4*k+1] == u16(info.Widths[k])
+//@     invariant forall k int :: 0 <= k && k < i && k < numLong ==> bdata(buf)[4*k+2]*256 + bdata(buf)[4*k+3] == u16(lsbs[k])
+//@     invariant forall k int :: numLong <= k && k < i ==> bdata(buf)[4*numLong + 2*(k-numLong)]*256 + bdata(buf)[4*numLong + 2*(k-numLong) + 1] == u16(lsbs[k])
+//@     invariant be16(hheaData, 34) == numLong && hh(hheaData, info)
 //@     invariant forall k int :: numLong <= k && k < numGlyphs ==> info.Widths[k] == info.Widths[numLong-1]
 //@     invariant numLong > 1 ==> info.Widths[numLong-1] != info.Widths[numLong-2]
 //@     invariant hhea.AdvanceWidthMax == maxW(info, len(info.Widths)) && (info.GlyphExtents != nil ==> hhea.MinRightSideBearing == minRSB(info, len(info.GlyphExtents)) && hhea.XMaxExtent == maxExt(info, len(info.GlyphExtents)))
@@ -68,6 +84,7 @@ package hmtx
 //@ func Decode(hheaData []byte, hmtxData []byte) (info *Info, err error)   props: C12 C02 C01
 //@   let nl = be16(hheaData, 34)
 //@   ensures err == nil ==> info != nil && fresh(info) && len(hheaData) >= 36 && info.Ascent == int16(be16(hheaData, 4)) && info.Descent == int16(be16(hheaData, 6)) && info.LineGap == int16(be16(hheaData, 8)) && info.CaretOffset == int16(be16(hheaData, 22))
+//@   ensures len(hheaData) >= 36 && be32(hheaData, 0) == 65536 && be16(hheaData, 32) == 0 && hmtxData != nil && len(hmtxData) >= 4*nl && (len(hmtxData) - 4*nl) % 2 == 0 ==> err == nil   // well-formed tables are accepted
 //@   ensures err == nil && hmtxData != nil ==> len(info.Widths) == len(info.LSB) && len(info.Widths) >= nl && len(hmtxData) == 4*min(len(info.Widths), nl) + 2*max(len(info.Widths) - nl, 0)
 //@   ensures err == nil && hmtxData != nil ==> forall i int :: 0 <= i && i < len(info.Widths) && i < nl ==> info.Widths[i] == int16(be16(hmtxData, 4*i)) && info.LSB[i] == int16(be16(hmtxData, 4*i + 2))
 //@   ensures err == nil && hmtxData != nil ==> forall i int :: nl <= i && i < len(info.Widths) ==> info.LSB[i] == int16(be16(hmtxData, 4*nl + 2*(i - nl))) && info.Widths[i] == ite(nl == 0, 0, info.Widths[nl-1])
@@ -82,3 +99,15 @@ package hmtx
 //@     invariant prevWidth == ite(i == 0 || numHorMetrics == 0, 0, widths[min(i, numHorMetrics)-1])
 //@     invariant info.Ascent == int16(be16(hheaData, 4)) && info.Descent == int16(be16(hheaData, 6)) && info.LineGap == int16(be16(hheaData, 8)) && info.CaretOffset == int16(be16(hheaData, 22)) && len(hheaData) >= 36
 //@     decreases len(hmtxData)
+
+// Round trip (lemma over the contracts of Encode and Decode): every advance
+// width and left side bearing comes back, however many trailing equal widths
+// the encoder compressed, together with ascent, descent, line gap and caret
+// offset.
+//@ func verifRoundTrip(info *Info, i int) (res *Info, err error)   props: C12 C01
+//@   requires info != nil && 1 <= len(info.Widths) && len(info.Widths) <= 65535 && len(info.LSB) == len(info.Widths) && (info.GlyphExtents == nil || len(info.GlyphExtents) == len(info.LSB))
+//@   may_panic
+//@   ensures err == nil && res != nil
+//@   ensures res.Ascent == info.Ascent && res.Descent == info.Descent && res.LineGap == info.LineGap && res.CaretOffset == info.CaretOffset
+//@   ensures len(res.Widths) == len(info.Widths) && len(res.LSB) == len(info.LSB)
+//@   ensures 0 <= i && i < len(info.Widths) ==> res.Widths[i] == info.Widths[i] && res.LSB[i] == info.LSB[i]
